@@ -188,7 +188,8 @@ def to_coq(c, sets):
         obs = clist("(%s, %d, %s)" % (clist("(%s, %s)" % (cz(h["tag"]), cs(h.get("rel", ""))) for h in q.get("hits") or []),
                                       ERR.get(q["err"], 99), cs(q.get("relafter", ""))) for q in o.get("seqs") or [])
         lw = clist("(%d, (%d, %s))" % (x["h"], x["w"], cs(x.get("ws", ""))) for d in c["routers"] for x in d["ops"] if x.get("w"))
-        return "CSeq %s %s %s %s %s %s %s" % (defs, le, lw, roks, clist("%d%%nat" % i for i in seq_order(c)), reqs, obs)
+        lsh = clist("(%d, %d%%nat)" % (x["h"], x["sh"]) for d in c["routers"] for x in d["ops"] if x.get("sh"))
+        return "CSeq %s %s %s %s %s %s %s %s" % (defs, le, lw, lsh, roks, clist("%d%%nat" % i for i in seq_order(c)), reqs, obs)
     if k in ("router", "entry"):
         defs = clist(clist(rop(x) for x in d["ops"]) for d in c["routers"])
         le = clist("(%d, %d)" % (x["h"], LEAF[x["e"]]) for d in c["routers"] for x in d["ops"] if x.get("e"))
